@@ -591,6 +591,15 @@ func (fc *fileCtx) visit(n ast.Node, parent ast.Node, d int) {
 				fc.markRewritten(local)
 				fc.count("runtime." + n.Sel.Name)
 			}
+		case "golang.org/x/sync/errgroup":
+			switch n.Sel.Name {
+			case "Group":
+				fc.replace(n.Pos(), n.End(), "simrt.ErrGroup", d, false)
+				fc.markRewritten(local)
+				fc.count("errgroup.Group")
+			default:
+				fc.unsupported(n.Pos(), "errgroup."+n.Sel.Name)
+			}
 		case "context":
 			switch n.Sel.Name {
 			case "WithTimeout", "WithDeadline", "WithCancel":
